@@ -325,7 +325,7 @@ func c03ConstructionWiring(c *core.Ctx, R string) {
 
 // c08UpgradeBranchWiring — the effects of the UPGRADE branch and of clearTransport.
 func c08UpgradeBranchWiring(c *core.Ctx, R string) {
-	c.Rule(R, "upgrade-branch wiring: on UPGRADE the old transport is discarded (Transport().Discard()) before clearTransport, upgrade is emitted with the candidate after setTransport, and a session that is closing gets candidate.Close(→ OnClose(\"forced close\")); clearTransport silences further errors of the old transport (On(\"error\", …)) and closes it (Transport().Close()); the probe text is read from the packet data (io.Copy into the builder) before it is compared")
+	c.Rule(R, "upgrade-branch wiring: on UPGRADE the old transport is discarded (Transport().Discard()) before clearTransport, upgrade is emitted with the candidate after setTransport, and a session that is closing gets candidate.Close(→ OnClose(\"forced close\")) after the flush that follows setTransport; clearTransport silences further errors of the old transport (On(\"error\", …)) and closes it (Transport().Close()); the probe text is read from the packet data (io.Copy into the builder) before it is compared")
 	op := c.Fn(R, sockUpgrade+"$onPacket")
 	if op != nil {
 		g := op.Graph()
@@ -364,6 +364,20 @@ func c08UpgradeBranchWiring(c *core.Ctx, R string) {
 			}
 		}
 		c.Check(R, sockUpgrade+"$onPacket/closing→candidate.Close(forced close)", op.Pos(), okCl, "a graceful close that was waiting completes on the new transport")
+		// … after what the session had buffered went to the new transport: the flush that follows setTransport precedes
+		// that close (the other order closes the transport under the buffered messages: sent before the close, never delivered)
+		okOrder := false
+		for _, cl := range op.CallsTo("transports.(Transport).Close") {
+			if len(cl.Expr.Args) != 1 || !isCandidate(op, cl.Recv) || !g.GuardedBy(cl.Loc, closing) {
+				continue
+			}
+			for _, fl := range op.CallsTo(sockFlush) {
+				if st != nil && g.Dominates(st.Loc, fl.Loc) && g.Dominates(fl.Loc, cl.Loc) {
+					okOrder = true
+				}
+			}
+		}
+		c.Check(R, sockUpgrade+"$onPacket/setTransport≺flush≺closing-close", op.Pos(), okOrder, "messages buffered while the upgrade was under way are handed to the new transport before a pending graceful close closes it")
 		// probe text read before compare
 		okProbe := false
 		for _, cl := range op.CallsTo("io.Copy") {
